@@ -46,6 +46,16 @@ struct Sandbox {
     _td: tempfile::TempDir,
     parent: PathBuf, // "/S"
     root: PathBuf,   // "/S/d1/d2/cache"
+    /// `real` replaced a "/S" that stands behind padding characters (see `PADS`)
+    padded: std::cell::Cell<bool>,
+}
+
+/// Characters a "normalising" step may strip or fold around a name (White_Space members that
+/// `str::trim` removes, zero-width characters it does not, quotes). The generators glue them to
+/// hostile cores ("..", "../x", "/S/evil"); the safety guard looks through them.
+const PADS: &[char] = &[' ', '\t', '\n', '\r', '\u{b}', '\u{c}', '\u{a0}', '\u{3000}', '\u{2028}', '\u{feff}', '\u{200b}', '"', '\''];
+fn strip_pads(s: &str) -> &str {
+    s.trim_start_matches(|c| PADS.contains(&c))
 }
 
 type Snap = BTreeMap<PathBuf, bool>; // path -> is_dir
@@ -56,23 +66,49 @@ impl Sandbox {
         let parent = td.path().canonicalize().expect("canon");
         let root = parent.join("d1").join("d2").join("cache");
         std::fs::create_dir_all(&root).unwrap();
-        Sandbox { _td: td, parent, root }
+        Sandbox { _td: td, parent, root, padded: std::cell::Cell::new(false) }
     }
-    /// "/S/..." -> real path string (only for strings that start with the abstract prefix)
+    /// "/S/..." -> real path string (only for strings that start with the abstract prefix,
+    /// possibly behind padding characters: `" /S/evil"` -> `" <parent>/evil"`)
     fn real(&self, s: &str) -> String {
-        if s == "/S" {
-            self.parent.to_string_lossy().into_owned()
-        } else if let Some(rest) = s.strip_prefix("/S/") {
-            format!("{}/{}", self.parent.to_string_lossy(), rest)
+        let t = strip_pads(s);
+        let pre = &s[..s.len() - t.len()];
+        let out = if t == "/S" {
+            format!("{pre}{}", self.parent.to_string_lossy())
+        } else if let Some(rest) = t.strip_prefix("/S/") {
+            format!("{pre}{}/{}", self.parent.to_string_lossy(), rest)
         } else {
-            s.to_string()
+            return s.to_string();
+        };
+        if !pre.is_empty() {
+            self.padded.set(true);
         }
+        out
     }
-    /// real path -> "/S/..." text
+    /// real path -> "/S/..." text. After a padded substitution the real parent can occur INSIDE a
+    /// name (the unchanged code treats `" /S/evil"` as the relative name `" "/S/evil`): it is
+    /// written back as "/S" there too.
     fn abs(&self, p: &Path) -> String {
         let rel = p.strip_prefix(&self.parent).expect("entry inside sandbox");
         let r = rel.to_string_lossy();
+        let r = if self.padded.get() { r.replace(&*self.parent.to_string_lossy(), "/S") } else { r.into_owned() };
         if r.is_empty() { "/S".to_string() } else { format!("/S/{r}") }
+    }
+    /// after a padded substitution: a directory that exists only because the real parent has more
+    /// components than "/S" (`cache/" "/tmp` on the way to `cache/" "/tmp/.tmpAbc` = `cache/" "/S`).
+    /// Such entries are left out of the printed listing (never out of the confinement check).
+    fn artefact(&self, p: &Path) -> bool {
+        if !self.padded.get() {
+            return false;
+        }
+        let par = self.parent.to_string_lossy().into_owned();
+        let r = p.to_string_lossy();
+        if p.strip_prefix(&self.parent).is_ok_and(|rel| rel.to_string_lossy().contains(&par)) {
+            return false;
+        }
+        par.char_indices().any(|(k, c)| {
+            k > 0 && c == '/' && r.strip_suffix(&par[..k]).is_some_and(|x| x.chars().next_back().is_some_and(|l| PADS.contains(&l)))
+        })
     }
     fn snap(&self) -> Snap {
         fn walk(d: &Path, out: &mut Snap) {
@@ -108,6 +144,9 @@ fn diff(sb: &Sandbox, before: &Snap, after: &Snap) -> Diff {
             if !p.starts_with(&sb.root) {
                 d.outside.push(a.clone());
             }
+            if sb.artefact(p) {
+                continue;
+            }
             if *is_dir { d.new_dirs.push(a) } else { d.new_files.push(a) }
         }
     }
@@ -142,9 +181,12 @@ fn dd(s: &str) -> usize {
 fn unsafe_args(direct: &[&str], other: &[&str]) -> bool {
     let mut total = 0;
     for s in direct {
-        if s.starts_with('/') {
+        // the guard looks through padding: `" /x"` becomes absolute as soon as some step trims it,
+        // and a leading '\\' as soon as some step turns it into '/'
+        let t = strip_pads(s);
+        if t.starts_with('/') || t.starts_with('\\') {
             // an absolute key replaces the root: only targets strictly below /S are run
-            let ok = s.strip_prefix("/S/").is_some_and(|rest| dd(s) == 0 && rest.split('/').any(|g| !g.is_empty() && g != "."));
+            let ok = t.strip_prefix("/S/").is_some_and(|rest| dd(s) == 0 && rest.split('/').any(|g| !g.is_empty() && g != "."));
             if !ok {
                 return true;
             }
@@ -165,6 +207,12 @@ fn shape(strings: &[&str]) -> &'static str {
         "absolute"
     } else if strings.iter().any(|s| s.split('/').all(|seg| seg.is_empty() || seg == ".")) {
         "nofilename"
+    } else if strings.iter().any(|s| {
+        let core = |x: &str| x.trim_matches(|c| PADS.contains(&c)).to_string();
+        core(s).starts_with('/') || s.split(['/', '\\']).any(|seg| core(seg) == "..")
+    }) {
+        // "..", or an absolute path, behind padding / a foreign separator
+        "padded"
     } else {
         "other"
     }
@@ -175,10 +223,25 @@ fn shape(strings: &[&str]) -> &'static str {
 struct Seen {
     target: Option<String>,
     range: Option<String>,
+    /// every request target since the last reset, in order (op `cdnx`)
+    hits: Vec<String>,
+    /// op `cdnx`: answer with a body that is a function of the request target (`echo_body`) and
+    /// honour `Range`, so that the bytes a call returns say which URL they were fetched from
+    echo: bool,
 }
 struct Server {
     addr: String,
     seen: Arc<Mutex<Seen>>,
+}
+/// the object the mock CDN serves at `target` in echo mode: different targets, different bytes
+fn echo_body(target: &str) -> Vec<u8> {
+    format!("<{target}>#<{target}>#<{target}>").into_bytes()
+}
+/// `bytes=a-b` / `bytes=a-` -> inclusive byte range
+fn parse_range(v: &str) -> Option<(u64, Option<u64>)> {
+    let r = v.trim().strip_prefix("bytes=")?;
+    let (a, b) = r.split_once('-')?;
+    Some((a.parse().ok()?, if b.is_empty() { None } else { Some(b.parse().ok()?) }))
 }
 const BPSV_BODY: &str = "Region!STRING:0|BuildId!DEC:4\n## seqn = 12345\nus|1234\neu|5678\n";
 
@@ -223,16 +286,30 @@ fn start_server() -> Server {
                         }
                     }
                 }
-                {
+                let echo = {
                     let mut s = seen3.lock().unwrap();
-                    s.target = Some(target);
-                    s.range = range;
-                }
-                let body = BPSV_BODY.as_bytes();
-                let head = format!("HTTP/1.1 200 OK\r\nContent-Length: {}\r\nContent-Type: text/plain\r\nConnection: close\r\n\r\n", body.len());
+                    s.target = Some(target.clone());
+                    s.range = range.clone();
+                    s.hits.push(target.clone());
+                    s.echo
+                };
+                let (status, body): (&str, Vec<u8>) = if !echo {
+                    ("200 OK", BPSV_BODY.as_bytes().to_vec())
+                } else {
+                    let full = echo_body(&target);
+                    match range.as_deref().map(parse_range) {
+                        None => ("200 OK", full),
+                        Some(Some((a, b))) if (a as usize) < full.len() && b.is_none_or(|b| b >= a) => {
+                            let end = b.map_or(full.len() - 1, |b| (b as usize).min(full.len() - 1));
+                            ("206 Partial Content", full[a as usize..=end].to_vec())
+                        }
+                        Some(_) => ("416 Range Not Satisfiable", vec![]),
+                    }
+                };
+                let head = format!("HTTP/1.1 {status}\r\nContent-Length: {}\r\nContent-Type: text/plain\r\nConnection: close\r\n\r\n", body.len());
                 let _ = c.write_all(head.as_bytes());
                 if method != "HEAD" {
-                    let _ = c.write_all(body);
+                    let _ = c.write_all(&body);
                 }
                 let _ = c.flush();
             });
@@ -819,6 +896,116 @@ fn run_line(s: &mut Session, ctx: &mut Ctx, req: &str) -> Option<String> {
                 }
             }
         }
+        // CDN cache-key / cache-file injectivity across content types and entry points: a sequence
+        // of calls for ONE hash on ONE CDN path through ONE CdnClient / ProtocolCache (disk or
+        // memory backed). The mock CDN serves different bytes at every URL, so the bytes a call
+        // returns say where they came from.
+        ["cdnx", backing, path, key, calls @ ..] if !calls.is_empty() => {
+            let disk = match *backing { "disk" => true, "mem" => false, _ => return None };
+            let path = dec_tok(path)?;
+            let key = unhex(key)?;
+            #[derive(Clone, PartialEq, Debug)]
+            enum Obj { Full(String), Index, Part(String, u64, Option<u64>) }
+            let mut plan: Vec<(String, Obj)> = vec![];
+            for c in calls {
+                let obj = match c.split('.').collect::<Vec<_>>().as_slice() {
+                    ["dl", ct] | ["progress", ct] => { ctype(ct)?; Obj::Full((*ct).to_string()) }
+                    ["index"] => Obj::Index,
+                    ["range", ct, off, len] => { let (o, l): (u64, u64) = (off.parse().ok()?, len.parse().ok()?); if l == 0 || o.checked_add(l).is_none() { return None; } ctype(ct)?; Obj::Part((*ct).to_string(), o, Some(o + l - 1)) }
+                    ["resume", ct, off] => { ctype(ct)?; Obj::Part((*ct).to_string(), off.parse().ok()?, None) }
+                    _ => return None,
+                };
+                plan.push((c.to_string(), obj));
+            }
+            if !cu_ok(&path) { return Some("n/a".into()); }
+            let ep = CdnEndpoint { host: ctx.srv.addr.clone(), path: path.clone(), product_path: None, scheme: Some("http".into()), is_fallback: false, strict: false, max_hosts: None };
+            let sb = Sandbox::new();
+            let before = sb.snap();
+            *ctx.srv.seen.lock().unwrap() = Seen { echo: true, ..Seen::default() };
+            let hexk = hex::encode(&key);
+            type CallOut = (Result<Vec<u8>, ProtocolError>, Vec<String>);
+            let r: Result<Vec<CallOut>, String> = catch(AssertUnwindSafe(|| {
+                let cache = if disk { protocol_cache(&sb.root) } else { Arc::new(cascette_protocol::cache::ProtocolCache::new(&CacheConfig { cache_dir: None, ..CacheConfig::default() }).expect("memory cache")) };
+                let c = CdnClient::new(cache, CdnConfig::default()).expect("cdn client");
+                let mut outs = vec![];
+                for (call, _) in &plan {
+                    ctx.srv.seen.lock().unwrap().hits.clear();
+                    let f: Vec<&str> = call.split('.').collect();
+                    let res = match f.as_slice() {
+                        ["dl", ct] => ctx.rt.block_on(c.download(&ep, ctype(ct).unwrap(), &key)),
+                        ["progress", ct] => ctx.rt.block_on(c.download_with_progress(&ep, ctype(ct).unwrap(), &key, |_, _| {})),
+                        ["index"] => ctx.rt.block_on(c.download_archive_index(&ep, &hexk)),
+                        ["range", ct, off, len] => ctx.rt.block_on(c.download_range(&ep, ctype(ct).unwrap(), &key, off.parse().unwrap(), len.parse().unwrap())),
+                        ["resume", ct, off] => ctx.rt.block_on(c.download_with_resume(&ep, ctype(ct).unwrap(), &key, Some(off.parse().unwrap()))),
+                        _ => unreachable!(),
+                    };
+                    let hits = ctx.srv.seen.lock().unwrap().hits.clone();
+                    outs.push((res, hits));
+                }
+                outs
+            }));
+            let after = sb.snap();
+            *ctx.srv.seen.lock().unwrap() = Seen::default();
+            let d = diff(&sb, &before, &after);
+            check_confined(s, "cdn", &[&path], &d, req);
+            let outs = match r {
+                Err(m) => { s.oracle_fail("panic-cdn-cdnx", &format!("CdnClient call sequence {calls:?} panicked: {m}"), &[req.to_string()]); return Some("panic".into()); }
+                Ok(o) => o,
+            };
+            // O (knows nothing about the shape of URLs or cache keys): a call that contacted the CDN
+            // returns exactly what the CDN sent for that request; a call that did not must repeat
+            // an earlier call for the SAME object; two different whole objects never read the same
+            let slice = |full: &[u8], a: u64, b: Option<u64>| -> Vec<u8> {
+                if (a as usize) >= full.len() { return vec![]; }
+                let e = b.map_or(full.len() - 1, |b| (b as usize).min(full.len() - 1));
+                full[a as usize..=e].to_vec()
+            };
+            let mut failed = false;
+            let mut whole: Vec<(usize, Obj, Vec<u8>)> = vec![];
+            let mut resp: Vec<String> = vec![];
+            for (i, ((call, obj), (res, hits))) in plan.iter().zip(outs.iter()).enumerate() {
+                let net = if hits.is_empty() { "-".to_string() } else { hits.iter().map(|h| enc(h)).collect::<Vec<_>>().join(",") };
+                match res {
+                    Err(e) => resp.push(format!("{}@{net}", perr(e))),
+                    Ok(bytes) => {
+                        resp.push(format!("ok@{net}"));
+                        if failed { continue; }
+                        let cacheable = matches!(obj, Obj::Full(_) | Obj::Index);
+                        let prev_same = whole.iter().find(|(_, o, _)| o == obj);
+                        let clash = whole.iter().find(|(_, o, b)| cacheable && o != obj && b == bytes);
+                        if let Some((j, _, _)) = clash {
+                            failed = true;
+                            s.oracle_fail(&format!("cdn-cache-shared-{}-{}", plan[*j].0.split('.').take(2).collect::<Vec<_>>().join("."), call.split('.').take(2).collect::<Vec<_>>().join(".")),
+                                &format!("CDN path {path:?}, hash {hexk}, calls {calls:?} ({backing} cache): call #{i} ({call}) returned the bytes {:?} that call #{j} ({}) had returned for a different object; it contacted {:?}", String::from_utf8_lossy(bytes), plan[*j].0, hits), &[req.to_string()]);
+                        } else if let [t] = hits.as_slice() {
+                            let want = match obj { Obj::Part(_, a, b) => slice(&echo_body(t), *a, *b), _ => echo_body(t) };
+                            if *bytes != want {
+                                failed = true;
+                                s.oracle_fail(&format!("cdn-wrong-bytes-{}", call.split('.').take(2).collect::<Vec<_>>().join(".")), &format!("CDN path {path:?}, hash {hexk}, calls {calls:?}: call #{i} ({call}) requested {t} and returned {:?}, not what the CDN sent ({:?})", String::from_utf8_lossy(bytes), String::from_utf8_lossy(&want)), &[req.to_string()]);
+                            }
+                        } else if hits.is_empty() {
+                            match prev_same {
+                                Some((_, _, b)) if cacheable && b == bytes => {}
+                                _ => {
+                                    failed = true;
+                                    s.oracle_fail(&format!("cdn-cache-shared-{}", call.split('.').take(2).collect::<Vec<_>>().join(".")), &format!("CDN path {path:?}, hash {hexk}, calls {calls:?} ({backing} cache): call #{i} ({call}) did not contact the CDN although this object had not been fetched before; it returned {:?}", String::from_utf8_lossy(bytes)), &[req.to_string()]);
+                                }
+                            }
+                        }
+                        if cacheable && prev_same.is_none() { whole.push((i, obj.clone(), bytes.clone())); }
+                    }
+                }
+            }
+            // every object that went through the caching entry points has a file of its own
+            let cached: Vec<&Obj> = { let mut v: Vec<&Obj> = vec![]; for ((call, obj), (res, _)) in plan.iter().zip(outs.iter()) { if res.is_ok() && (call.starts_with("dl.") || call == "index") && !v.contains(&obj) { v.push(obj); } } v };
+            if disk && !failed && d.new_files.len() < cached.len() {
+                s.oracle_fail("cdn-cache-file-shared", &format!("CDN path {path:?}, hash {hexk}, calls {calls:?}: {} different objects were cached in {} file(s) {:?}", cached.len(), d.new_files.len(), d.new_files), &[req.to_string()]);
+            }
+            s.tally(&format!("cdnx.{backing}.{}", plan.len()));
+            let mut files = d.new_files.clone();
+            files.sort();
+            Some(format!("{} files={}", resp.join(" "), if files.is_empty() { "-".to_string() } else { files.iter().map(|x| enc(x)).collect::<Vec<_>>().join(",") }))
+        }
         // RangeDownloader::download_archive_content (cdn/range.rs): URL
         // "https://{host}/{path}[/{product_path}]/data/{name[0..2]}/{name[2..4]}/{name}"; the scheme is
         // fixed, so the request goes to a closed port and the URL is read back from the
@@ -982,10 +1169,25 @@ fn run_line(s: &mut Session, ctx: &mut Ctx, req: &str) -> Option<String> {
             }));
             let storage = match r0 { Ok(Ok(st)) => st, _ => return Some("err:setup".into()) };
             let before = sb.snap();
-            let r = catch(AssertUnwindSafe(|| storage.open_installation(&real).map(|_| ())));
+            let r = catch(AssertUnwindSafe(|| storage.open_installation(&real).map(|i| i.path().clone())));
             let after = sb.snap();
             let d = diff(&sb, &before, &after);
             check_confined(s, "inst", &[&name], &d, req);
+            // the directory the installation says it lives in, lexically normalised, is below base_path
+            if let Ok(Ok(p)) = &r {
+                let mut norm = PathBuf::new();
+                for c in p.components() {
+                    match c {
+                        std::path::Component::ParentDir => { norm.pop(); }
+                        std::path::Component::CurDir => {}
+                        c => norm.push(c),
+                    }
+                }
+                if !norm.starts_with(&sb.root) {
+                    s.oracle_fail(&format!("escape-inst-path-{}", shape(&[&name])), &format!("open_installation({name:?}) returned an installation at {}, not below base_path /S/d1/d2/cache", if p.starts_with(&sb.parent) { sb.abs(p) } else { p.to_string_lossy().into_owned() }), &[req.to_string()]);
+                }
+            }
+            let r = r.map(|x| x.map(|_| ()));
             match r {
                 Err(_) => { s.oracle_fail("panic-inst", &format!("open_installation panicked for {name:?}"), &[req.to_string()]); Some("panic".into()) }
                 Ok(Ok(())) => {
@@ -1049,7 +1251,63 @@ fn emit(s: &mut Session, ctx: &mut Ctx, req: String) -> String {
 }
 
 // ---------------------------------------------------------------- generators
-const SEGS: &[&str] = &["..", ".", "", "a", "b.x", "x.tmp", "data.000", "data.001", "a.b.c", ".hidden", "..a", "a..", "...", "é", "中", "con:fig", " ", "a b", "%2e%2e", "\\", "~", "S", "d1", "d2", "cache", "secret", "inside", "api", "ribbit", "cdn", "a.", ".tmp", "x.TMP"];
+const SEGS: &[&str] = &["..", ".", "", "a", "b.x", "x.tmp", "data.000", "data.001", "a.b.c", ".hidden", "..a", "a..", "...", "é", "中", "con:fig", " ", "a b", "%2e%2e", "\\", "~", "S", "d1", "d2", "cache", "secret", "inside", "api", "ribbit", "cdn", "a.", ".tmp", "x.TMP",
+    // "..", "." and names behind padding (see PADS): Normal components as they stand, hostile once trimmed
+    " ..", ".. ", "\t..", "..\n", "\u{a0}..", "..\u{3000}", "\u{feff}..", " .", ". ", " a", "a ", "\"..\"", "..\\..", "\u{ff0e}\u{ff0e}", "%2E%2E"];
+
+/// a hostile core behind / in front of / between padding characters
+fn padded_forms(core: &str) -> Vec<String> {
+    let mut v = vec![];
+    for p in PADS {
+        v.push(format!("{p}{core}"));
+        v.push(format!("{core}{p}"));
+        v.push(format!("{p}{core}{p}"));
+    }
+    v.push(format!(" \t {core}"));
+    v.push(format!("{core}\r\n"));
+    v
+}
+/// other spellings of a relative hostile core that some normalising step folds back into it:
+/// foreign separators, padding around every segment, percent-encoding, compatibility characters,
+/// trailing dots and blanks
+fn respelled_forms(core: &str) -> Vec<String> {
+    vec![
+        core.replace('/', "\\"),
+        core.split('/').map(|g| format!(" {g} ")).collect::<Vec<_>>().join("/"),
+        core.split('/').map(|g| format!("{g}\t")).collect::<Vec<_>>().join("/"),
+        core.replace("..", "%2e%2e"),
+        core.replace("..", "%2E%2E"),
+        core.replace('/', "%2f"),
+        core.replace('/', "%2F").replace("..", "%2e%2e"),
+        core.replace('.', "\u{ff0e}"),
+        core.replace('/', "\u{ff0f}"),
+        core.replace("..", "\u{2025}"),
+        core.replace("..", ".. ."),
+        core.replace("..", "..."),
+        core.to_uppercase(),
+    ]
+}
+/// relative cores: at most three ".." each, so that no spelling of them leaves the scratch parent
+const REL_CORES: &[&str] = &["..", "../escaped", "../../escaped", "../../../escaped", "x/../../escaped"];
+/// absolute cores, strictly below the scratch parent and outside the configured root
+const ABS_CORES: &[&str] = &["/S/evil", "/S/d1/d2/evil"];
+/// the boundary family for one API: every padding of the first cores, a sample of the others
+fn disguised(rng: &mut Rng, thorough: bool, with_abs: bool, extra: &[&str]) -> Vec<String> {
+    let mut v = vec![];
+    for (i, c) in REL_CORES.iter().chain(extra.iter()).enumerate() {
+        for f in padded_forms(c).into_iter().chain(respelled_forms(c)) {
+            if thorough || i < 2 || rng.chance(1, 3) { v.push(f); }
+        }
+    }
+    if with_abs {
+        for (i, c) in ABS_CORES.iter().enumerate() {
+            for f in padded_forms(c) {
+                if thorough || i < 1 || rng.chance(1, 3) { v.push(f); }
+            }
+        }
+    }
+    v
+}
 
 fn hostile_string(rng: &mut Rng) -> String {
     let n = match rng.below(8) { 0 => 0, 1 | 2 => 1, 3 | 4 => 2, 5 => 3, 6 => 4, _ => rng.range(3, 6) as usize };
@@ -1065,10 +1323,12 @@ fn hostile_string(rng: &mut Rng) -> String {
     }).collect();
     if rng.chance(1, 8) { parts.push(String::new()); }          // trailing slash
     let mut s = parts.join("/");
-    match rng.below(12) {
+    match rng.below(14) {
         0 => s = format!("/S/{s}"),                               // absolute, inside the sandbox
         1 => s = format!("/{s}"),                                 // absolute, elsewhere (guard skips unless harmless)
         2 => s = "/S".to_string(),
+        3 => s = format!("{}{s}", rng.pick(PADS)),                // padding in front (guard skips pad + absolute)
+        4 => s = format!("{s}{}", rng.pick(PADS)),                // padding behind
         _ => {}
     }
     s
@@ -1076,7 +1336,100 @@ fn hostile_string(rng: &mut Rng) -> String {
 
 fn wf_name(rng: &mut Rng) -> String {
     const N: &[&str] = &["us", "eu", "cn", "wow", "wow_classic", "d3", "buildconfig", "cdnconfig", "patchconfig", "root", "encoding", "install", "download", "summary", "versions", "cdns", "bgdl", "v1", "products", "A-b_9", "0", "tmp"];
+    // a third of the names: two or three tokens of a small pool glued with '_' / '-', so that
+    // tuples with the same concatenation and different field boundaries meet often
+    if rng.chance(1, 3) {
+        const T: &[&str] = &["wow", "classic", "era", "versions", "us", "ptr", "cdns", "v1", "US", "WoW"];
+        let n = rng.range(2, 3);
+        let mut s = (*rng.pick(T)).to_string();
+        for _ in 1..n {
+            s.push(*rng.pick(&['_', '_', '-']));
+            s.push_str(*rng.pick(T));
+        }
+        return s;
+    }
     rng.pick(N).to_string()
+}
+
+/// Well-formed typed keys (arguments of op `typed`) that differ in a field and would share a file
+/// as soon as the file name stopped telling apart the field separator ':' and a character that
+/// is legal INSIDE a field ('_', '-', '.', '/'), two such characters, upper and lower case, or
+/// names beyond some length: for every separator-like character c the same concatenation with the
+/// field boundary at every position ("separator shift"), the same tokens with every joiner, case
+/// pairs, and 64-byte names that differ in the last byte.
+fn collision_families() -> Vec<String> {
+    let mut v: Vec<String> = vec![];
+    let (x, y, z, r) = ("wow", "classic", "versions", "us");
+    let h1 = "0123456789abcdef0123456789abcdef";
+    let h2 = "fedcba9876543210fedcba9876543210";
+    let e = |t: &str| enc(t);
+    for c in ['_', '-'] {
+        // ribbit:{region}[:{product}]:{endpoint}
+        v.push(format!("ribbit {} {} {}", e(z), e(r), e(&format!("{x}{c}{y}"))));
+        v.push(format!("ribbit {} {} {}", e(&format!("{y}{c}{z}")), e(r), e(x)));
+        v.push(format!("ribbit {} {} ~", e(&format!("{x}{c}{y}{c}{z}")), e(r)));
+        v.push(format!("ribbit {} {} ~", e(&format!("{y}{c}{z}")), e(&format!("{r}{c}{x}"))));
+        v.push(format!("ribbit {} {} {}", e(z), e(&format!("{r}{c}{x}")), e(y)));
+        v.push(format!("ribbit {} {} ~", e(z), e(&format!("{r}{c}{x}{c}{y}"))));
+        // config:{type}:{hash}, index:{archive}:{hash}
+        for kind in ["config", "index"] {
+            v.push(format!("{kind} {} {}", e(&format!("{x}{c}{y}")), e(z)));
+            v.push(format!("{kind} {} {}", e(x), e(&format!("{y}{c}{z}"))));
+            v.push(format!("{kind} {} {}", e(&format!("{x}{c}{h1}")), e(h2)));
+            v.push(format!("{kind} {} {}", e(x), e(&format!("{}{c}{h2}", &h1[..16]))));
+            v.push(format!("{kind} {} {}", e(&format!("{x}{c}{}", &h1[..16])), e(h2)));
+        }
+        // manifest:{type}:{ckey}[:{version}]
+        v.push(format!("manifest {} {h2} ~", e(&format!("{x}{c}{h1}"))));
+        v.push(format!("manifest {} {h1} {}", e(x), e(h2)));
+        v.push(format!("manifest {} {h1} {}", e(&format!("{x}{c}{y}")), e(z)));
+        v.push(format!("manifest {} {h1} {}", e(x), e(&format!("{y}{c}{z}"))));
+    }
+    // the same tokens with every joiner (a name sanitiser that folds two of them collides here)
+    for j1 in ["_", "-", "/", "."] {
+        for j2 in ["_", "-", "/", "."] {
+            let t = format!("{x}{j1}{y}{j2}{z}");
+            if !t.contains('.') { v.push(format!("ribbit {} {} ~", e(&t), e(r))); }
+            if !t.contains('/') {
+                v.push(format!("index {} {}", e(&t), e("00")));
+                v.push(format!("archive {} 0 1", e(&t)));
+                v.push(format!("manifest {} {h1} {}", e("root"), e(&t)));
+            }
+            if !t.contains('/') && !t.contains('.') {
+                v.push(format!("config {} {}", e(&t), e(h1)));
+                v.push(format!("ribbit {} {} {}", e(z), e(r), e(&t)));
+            }
+        }
+    }
+    v.push(format!("ribbit {} {} ~", e(&format!("{x}/{y}/{z}")), e(r)));
+    v.push(format!("ribbit {} {} {}", e(&format!("{y}/{z}")), e(r), e(x)));
+    // upper / lower case
+    for (a, b) in [("versions", "Versions"), ("wow", "WOW")] {
+        for t in [a, b] {
+            v.push(format!("ribbit {} {} ~", e(t), e(r)));
+            v.push(format!("ribbit {} {} {}", e("cdns"), e(r), e(t)));
+            v.push(format!("config {} {}", e(t), e(h1)));
+            v.push(format!("manifest {} {h1} {}", e(t), e("1.0")));
+            v.push(format!("archive {} 0 1", e(t)));
+        }
+    }
+    for t in ["us", "US", "Us"] { v.push(format!("ribbit {} {} ~", e("summary"), e(t))); }
+    for t in ["abcdef01", "ABCDEF01", "AbCdEf01"] {
+        v.push(format!("config {} {}", e("buildconfig"), e(t)));
+        v.push(format!("index {} {}", e("data.000"), e(t)));
+    }
+    // 64-byte names that differ in the last byte only, and in the first byte only
+    let long = "n".repeat(63);
+    for t in [format!("{long}1"), format!("{long}2"), format!("1{long}"), format!("2{long}")] {
+        v.push(format!("config {} {}", e(&t), e(h1)));
+        v.push(format!("config {} {}", e("buildconfig"), e(&t)));
+        v.push(format!("ribbit {} {} {}", e(&t), e(r), e(&t)));
+        v.push(format!("index {} {}", e(&t), e(&t)));
+        v.push(format!("archive {} 0 1", e(&t)));
+    }
+    let mut seen = BTreeSet::new();
+    v.retain(|l| seen.insert(l.clone()));
+    v
 }
 fn wf_dotted(rng: &mut Rng) -> String {
     const N: &[&str] = &["data.000", "data.001", "data.tmp", "1.15.7", "1.15.8", "v2", "1", "1.tmp", "1.0", "a.b.c", "archive-01", "x.", ".x", "..", "."];
@@ -1177,6 +1530,20 @@ fn main() {
             emit(&mut s, &mut ctx, format!("rget {l} {}", enc(k)));
         }
     }
+    // hostile cores behind padding and in other spellings (flat layout: the padded "/S/…" forms
+    // are substituted textually, see Sandbox::real): put, ProtocolCache, cold get, cold remove
+    {
+        let forms = disguised(&mut rng, thorough, true, &["../../secret", "../../../d1/secret"]);
+        for (i, f) in forms.iter().enumerate() {
+            if !thorough && i % 2 != (args.seed % 2) as usize { continue; }
+            let op = match i % 5 { 0 | 1 => "raw flat", 2 => "rget flat", 3 => "rdel flat", _ => "pcache" };
+            emit(&mut s, &mut ctx, format!("{op} {}", enc(f)));
+        }
+        for f in padded_forms("/S/d1/secret").iter().chain(padded_forms("../../secret").iter()) {
+            emit(&mut s, &mut ctx, format!("rget flat {}", enc(f)));
+            emit(&mut s, &mut ctx, format!("rdel flat {}", enc(f)));
+        }
+    }
     // 2. seeded hostile raw keys
     let n_raw = if thorough { 6000 } else { 700 };
     for _ in 0..n_raw {
@@ -1191,6 +1558,9 @@ fn main() {
     }
     // 3. temp names of keys that differ after the last '.'
     let dotted = ["data.000", "data.001", "data.tmp", "data", "a.b.c", "a.b.d", "a.b", ".x", ".y", "x.", "x", "..x", "..y", "a.tmp", "a.x", "a", "a.tmp.tmp", "dir/a.1", "dir/a.2", "dir.1/a", "dir.2/a", "index:data.000:h", "index:data.001:h"];
+    // the final file of "x.tmp" is on record before the temporary file of "x" is observed
+    emit(&mut s, &mut ctx, format!("raw flat {}", enc("x.tmp")));
+    emit(&mut s, &mut ctx, format!("raw h1 {}", enc("x.tmp")));
     for k in dotted {
         for l in ["flat", "h1"] {
             emit(&mut s, &mut ctx, format!("tmp {l} {}", enc(k)));
@@ -1235,6 +1605,31 @@ fn main() {
             }
         }
     }
+    // separator shift / joiner / case / length families (see collision_families)
+    for f in collision_families() {
+        for l in ["flat", "h2"] {
+            emit(&mut s, &mut ctx, format!("typed {l} {f}"));
+        }
+    }
+    // hostile cores behind padding and in other spellings, in every text field
+    {
+        let forms = disguised(&mut rng, thorough, false, &["/x"]);
+        let z = "00".repeat(16);
+        for (i, f) in forms.iter().enumerate() {
+            if !thorough && i % 3 != (args.seed % 3) as usize { continue; }
+            let l = layouts(&mut rng);
+            let line = match i % 7 {
+                0 => format!("typed {l} ribbit {} {} ~", enc(f), enc("us")),
+                1 => format!("typed {l} ribbit {} {} {}", enc("versions"), enc(f), enc("wow")),
+                2 => format!("typed {l} ribbit {} {} {}", enc("versions"), enc("us"), enc(f)),
+                3 => format!("typed {l} config {} {}", enc(f), enc("ab")),
+                4 => format!("typed {l} index {} {}", enc(f), enc("ab")),
+                5 => format!("typed {l} manifest {} {z} {}", enc("root"), enc(f)),
+                _ => format!("typed {l} archive {} 0 1", enc(f)),
+            };
+            emit(&mut s, &mut ctx, line);
+        }
+    }
     // the documented witnesses
     emit(&mut s, &mut ctx, format!("typed flat ribbit {} {} ~", enc("/../../../escaped"), enc("us")));
     emit(&mut s, &mut ctx, format!("typed flat manifest {} {} {}", enc("root"), "00".repeat(16), enc("1")));
@@ -1247,6 +1642,7 @@ fn main() {
     eps.push(format!("{}/x", "a".repeat(256)));
     eps.push("é".repeat(500));
     eps.push("é".repeat(501));
+    eps.extend(disguised(&mut rng, thorough, false, &["v1/../../../x", "/x", "v1/products/../../x"]));
     let n_q = if thorough { 800 } else { 120 };
     for _ in 0..n_q {
         let e = if rng.chance(1, 3) { wf_endpoint(&mut rng) } else { hostile_string(&mut rng) };
@@ -1273,6 +1669,11 @@ fn main() {
         let n = rng.range(0, 17) as usize;
         aks.push(if rng.chance(1, 2) { hex(&rng.bytes(n)).replace('-', "") } else { hostile_string(&mut rng) });
     }
+    for c in ["abcd", "0123456789abcdef0123456789abcdef", "../..", "ab/../../x", "abcd/../../../x"] {
+        for f in padded_forms(c).into_iter().chain(respelled_forms(c)) {
+            if thorough || rng.chance(1, 4) { aks.push(f); }
+        }
+    }
     for ak in &aks {
         for api in ["index", "isize"] {
             emit(&mut s, &mut ctx, format!("cdn {api} ~ @ {} {} cu=1", enc("tpr/wow"), enc(ak)));
@@ -1281,6 +1682,9 @@ fn main() {
     let mut paths: Vec<String> = vec!["tpr/wow", "tpr/wow/", "tpr/wow///", "", "/", "/tpr/wow", "..", "../..", "../../..", "tpr/../../../x", "tpr//wow", "tpr/./wow", "a b", "tpr/wow?x=1", "tpr/wow#f", "é"].into_iter().map(String::from).collect();
     for _ in 0..(if thorough { 300 } else { 40 }) {
         paths.push(hostile_string(&mut rng));
+    }
+    for f in disguised(&mut rng, thorough, false, &["tpr/../../../x", "/x"]) {
+        if thorough || rng.chance(1, 3) { paths.push(f); }
     }
     for p in &paths {
         let key = rng.bytes(16);
@@ -1293,10 +1697,41 @@ fn main() {
     for h in ["", "a b", "[::1", "127.0.0.1:1", "127.0.0.1:1/../x", "x@127.0.0.1:1"] {
         emit(&mut s, &mut ctx, format!("cdn download {} {} {} data {} cu=0", enc("http"), enc(h), enc("tpr/wow"), hex(&rng.bytes(16))));
     }
+    // 6b. one hash, one CDN path, one client: every ordered pair of entry points / content types
+    // (the second call must fetch and return its own object), A;B;A for the caching ones, both
+    // cache backings, random longer sequences
+    {
+        let calls = ["dl.config", "dl.data", "dl.patch", "index", "range.data.3.7", "range.patch.0.4", "resume.data.5", "progress.data", "progress.config"];
+        let caching = ["dl.config", "dl.data", "dl.patch", "index"];
+        let k16 = hex(&rng.bytes(16));
+        let keys = [k16.clone(), "abcd".to_string(), hex(&rng.bytes(32)), "0000".to_string()];
+        let tpr = enc("tpr/wow");
+        for a in calls {
+            for b in calls {
+                emit(&mut s, &mut ctx, format!("cdnx disk {tpr} {k16} {a} {b}"));
+            }
+        }
+        for a in caching {
+            for b in caching {
+                emit(&mut s, &mut ctx, format!("cdnx mem {tpr} {k16} {a} {b}"));
+                emit(&mut s, &mut ctx, format!("cdnx disk {} {} {a} {b} {a}", enc(*rng.pick(&["tpr/configs/data", "a", "tpr/wow/data", "data"])), rng.pick(&keys)));
+            }
+        }
+        for _ in 0..(if thorough { 300 } else { 30 }) {
+            let n = rng.range(2, 5);
+            let seq: Vec<&str> = (0..n).map(|_| if rng.chance(2, 3) { *rng.pick(&caching) } else { *rng.pick(&calls) }).collect();
+            let path = *rng.pick(&["tpr/wow", "tpr/configs/data", "data", "tpr/wow/", "tpr//wow", "../x"]);
+            let key = match rng.below(8) { 0 => "ab".to_string(), 1 => "-".to_string(), _ => rng.pick(&keys).clone() };
+            emit(&mut s, &mut ctx, format!("cdnx {} {} {key} {}", *rng.pick(&["disk", "disk", "mem"]), enc(path), seq.join(" ")));
+        }
+    }
     // 7. installation names
     let mut names: Vec<String> = vec!["wow", "wow_classic", "a/b", "a/b/", "a//b", "a/./b", "./a", ".", "..", "../evil", "a/../b", "a/../../evil", "/S/evil", "/S", "", "data", "indices", "a/..", "...", "é", "x\0y", "-"].into_iter().map(String::from).collect();
     names.push("a".repeat(255));
     names.push("a".repeat(256));
+    // names whose raw form has Normal components only and whose trimmed / re-spelled form is "..",
+    // starts with "..", or is absolute
+    names.extend(disguised(&mut rng, thorough, true, &["a/../../evil", "."]));
     for _ in 0..(if thorough { 500 } else { 80 }) {
         names.push(hostile_string(&mut rng));
     }
@@ -1411,6 +1846,11 @@ fn main() {
             let n = rng.range(0, 17) as usize;
             names.push(if rng.chance(1, 2) { hex(&rng.bytes(n)).replace('-', "") } else { hostile_string(&mut rng) });
         }
+        for c in ["abcd", "../..", "ab/../../x"] {
+            for f in padded_forms(c).into_iter().chain(respelled_forms(c)) {
+                if thorough || rng.chance(1, 4) { names.push(f); }
+            }
+        }
         for (i, n) in names.iter().enumerate() {
             let pp = match i % 3 { 0 => "~".to_string(), 1 => enc("wow"), _ => enc("tpr/configs/data") };
             let path = if i % 7 == 6 { hostile_string(&mut rng) } else { "tpr/wow".to_string() };
@@ -1430,7 +1870,7 @@ fn main() {
         emit(&mut s, &mut ctx, format!("fmt idxtmp {} {kind}", hexkey(&mut rng)));
     }
     // a few malformed requests
-    for l in ["raw flat zz", "raw deep 61", "typed flat nokind 61", "cdn nope ~ @ 61 data 00 cu=1", "hello", "fmt lru x", "ctor RibbitKey::nope 61", "ctor BlteKey::new zz", "stale nokind 61", "fmt seg 65536", "rdel deep 61", "arange 61 61 ~ 61 0 x cu=0"] {
+    for l in ["raw flat zz", "raw deep 61", "typed flat nokind 61", "cdn nope ~ @ 61 data 00 cu=1", "cdnx disk 61 0000", "cdnx tape 61 0000 index", "cdnx disk 61 0000 dl.nope", "cdnx disk 61 0000 range.data.1.0", "cdnx disk 61 0000 range.data.18446744073709551615.1", "cdnx disk 61 zz index", "hello", "fmt lru x", "ctor RibbitKey::nope 61", "ctor BlteKey::new zz", "stale nokind 61", "fmt seg 65536", "rdel deep 61", "arange 61 61 ~ 61 0 x cu=0"] {
         emit(&mut s, &mut ctx, l.to_string());
     }
     s.extra.insert("wf_final_files".into(), serde_json::json!(ctx.finals.len()));
